@@ -384,7 +384,7 @@ def dat_corruptions(draw, model):
             mon, yy = MONTHS[d['m'] - 1], '%02d' % (d['y'] % 100)
             dash = '-' if d['style'] == 'B' else ''
             how = draw(st.sampled_from(['month-unknown', 'day-zero', 'day-too-big', 'feb-30', 'no-year', 'no-day',
-                                        'mixed-separators', 'trailing-junk', 'leading-junk', 'no-month']))
+                                        'mixed-separators', 'trailing-junk', 'leading-junk', 'no-month', 'year-overlong', 'day-overlong']))
             c['how'] = how
             c['token'] = {
                 'month-unknown': '%02d%s%s%s%s' % (d['d'], dash, draw(st.sampled_from(['Dez', 'Okt', 'Mai', 'Xxx', 'Ju', 'Sept'])), dash, yy),
@@ -397,6 +397,9 @@ def dat_corruptions(draw, model):
                 'trailing-junk': good + draw(st.sampled_from(['x', '-', 'a1', '.0'])),
                 'leading-junk': draw(st.sampled_from(['x', '-', 'D'])) + good,
                 'no-month': '%02d%s%s%s' % (d['d'], dash, dash, yy),
+                # digits in the right places, but no calendar holds them (two fields run together, a stuck key)
+                'year-overlong': '%02d%s%s%s%s' % (d['d'], dash, mon, dash, yy + '9' * draw(st.integers(8, 24))),
+                'day-overlong': '%s%s%s%s%s' % ('3' * draw(st.integers(10, 24)), dash, mon, dash, yy),
             }[how]
         else:
             h, m, s = row['time']
